@@ -271,6 +271,8 @@ def run(chk):
     r16_3(chk)
     r16_5(chk)
     r16_8(chk)
+    # R16.9 the geometry handed to the kernels is the one defined now (derived radius refreshed on every rebuild)
+    pyrules.check_geometry_closure(chk, 'R16.9')
     from . import c16iso, c16deep
     c16iso.r16_2(chk)
     c16deep.run(chk)
